@@ -3287,7 +3287,11 @@ class QuicConnection:
 
             # ACK
             if space.ack_at is not None and (can_pad or not self._is_client):
-                self._write_ack_frame(builder=builder, space=space, now=now)
+                # (no ACK-of-ACK trigger in a datagram which cannot be padded: the
+                # PING would make the INITIAL packet ack-eliciting)
+                self._write_ack_frame(
+                    builder=builder, space=space, now=now, ack_of_ack=can_pad
+                )
 
             # CRYPTO
             if can_pad and not crypto_stream.sender.buffer_is_empty:
@@ -3313,7 +3317,11 @@ class QuicConnection:
                 break
 
     def _write_ack_frame(
-        self, builder: QuicPacketBuilder, space: QuicPacketSpace, now: float
+        self,
+        builder: QuicPacketBuilder,
+        space: QuicPacketSpace,
+        now: float,
+        ack_of_ack: bool = True,
     ) -> None:
         # calculate ACK delay
         ack_delay = now - space.largest_received_time
@@ -3343,7 +3351,7 @@ class QuicConnection:
             )
 
         # check if we need to trigger an ACK-of-ACK
-        if ranges > 1 and builder.packet_number % 8 == 0:
+        if ack_of_ack and ranges > 1 and builder.packet_number % 8 == 0:
             self._write_ping_frame(builder, comment="ACK-of-ACK trigger")
 
     def _write_connection_close_frame(
